@@ -816,8 +816,11 @@ def _rebase_symmetry(ck, p, rule, byk, lf, lcfg, lpv, gets, puts):
         if "unrecognised" in (pk[0], qk[0]) and not same_local:
             ck.undecided(rule, key, g.loc(pushes[0][1]["ln"]), "(d) " + detail + ": offsets not recognised as derived from the chunk")
             continue
+        if not same_local and {pk[0], qk[0]} == {"span-start", "first-start"} and pk[1] and qk[1]:
+            ck.undecided(rule, key, g.loc(pushes[0][1]["ln"]), "(d) " + detail + ": the two are equal only if the first token of a chunk is the one that starts earliest, which no rule here establishes for every front end (until fix e7b4a9f the Markdown parser put a block's break in front of the block's last run of text)")
+            continue
         if not same_local and (pk[0] != qk[0] or not pk[1] or not qk[1]):
-            ck.refuted(rule, key, g.loc(pushes[0][1]["ln"]), "(d) " + detail + ": the two differ whenever the first token of a chunk is not the one that starts earliest (Markdown puts the zero-width ParagraphBreak that closes a block at the start of the block's last text run), so the lint lands on other characters than the rule matched - possibly beyond the end of the text")
+            ck.refuted(rule, key, g.loc(pushes[0][1]["ln"]), "(d) " + detail + ": the offset added back is not the offset taken off, so the lint lands on other characters than the rule matched - possibly beyond the end of the text")
             continue
         # ordering around the cache (only where this function owns the cache)
         if g is lf and gets and puts and pulls:
